@@ -121,6 +121,47 @@ func c12CheckMap(ctx *Ctx, m map[int]int, kind string) {
 
 var c12Curve *ScriptCurve
 
+// c12RealBackends: the same property on the real fan backends (cmd scripts, file and hwmon devices): a sequence of
+// different requests under a sparse or README-style map; after every cycle the device holds the map's output for a
+// nearest supported input of that cycle's request.
+func c12RealBackends(ctx *Ctx) {
+	r := ctx.Rng
+	for _, kind := range []string{"cmd", "file", "file-home", "hwmon"} {
+		k, home := homeKind(r, kind)
+		sc := &Scenario{Fan: FanSpec{Kind: k, HomePath: home, HasPwm: true, HasEnable: kind == "hwmon"}, Plant: PlantSpec{Kind: "const", Const: 1200}, Loop: LoopSpec{Kind: "direct"},
+			Map: pick(r, MapSpec{Kind: "readme"}, MapSpec{Kind: "hundred"}, genMap(r, false), genMap(r, false)), Window: 1, InitPwm: r.Intn(256), InitMode: 2, PriorRpm: 1200}
+		n := 40
+		if kind == "cmd" {
+			n = 14
+		}
+		for i := 0; i < n; i++ {
+			sc.Steps = append(sc.Steps, CycleStep{Curve: pick(r, 0, 255, 45, 110, 205, r.Intn(256), r.Intn(256)), DtMs: 200})
+		}
+		moved := false
+		runScenario(ctx, sc, func(w *World, rec *CycleRecord) bool {
+			ctx.Eval(1)
+			if rec.Err != nil || rec.Panic != "" || !rec.HasRequest || w.PwmMap == nil {
+				return rec.Panic != ""
+			}
+			allowed := map[int]bool{}
+			for _, key := range refNearest(w.Supp, rec.Request) {
+				allowed[w.PwmMap[key]] = true
+			}
+			if !allowed[rec.DevPwmAfter] {
+				ctx.Violation("real-backend:device-not-at-nearest-supported-value:"+kind+":"+sc.Map.Kind, fmt.Sprintf("cycle %d: request %d, the %s fan holds %d, allowed %v (map %s)", rec.Idx, rec.Request, kind, rec.DevPwmAfter, allowed, sc.Map.Kind), sc)
+				return true
+			}
+			if rec.HadPrev && rec.PrevRequest != rec.Request {
+				moved = true
+			}
+			return false
+		})
+		if moved {
+			ctx.Nontrivial("real-backend|" + kind + "|" + sc.Map.Kind + "|" + hash64(jsonStr(sc.Steps)))
+		}
+	}
+}
+
 // enumerate all maps over the key subset `keys` with a run partition given by
 // bits (bit i set = new run starts at key i+1) and strictly increasing outputs
 func c12MapFor(keys []int, bits int) map[int]int {
@@ -167,6 +208,9 @@ func init() {
 			}
 		}
 		ctx.Count("exhaustive_maps", int64(maps))
+		for i := 0; i < ctx.N(24, 240); i++ {
+			c12RealBackends(ctx)
+		}
 		// random part: full-size, non-monotonic, constant, single-entry maps
 		nr := ctx.N(6000, 80000)
 		for i := 0; i < nr; i++ {
